@@ -1,4 +1,5 @@
 import MosnVerif.Lemmas.Subset
+import MosnVerif.Lemmas.SubsetRequest
 /-!
 # C15 — subset load balancing honours metadata and its fallback policy (property theorems only)
 
@@ -356,5 +357,186 @@ example : selectorExists exRaw [("a", "2")] = true ∧
     (chooseHost rrChoose (lbF exHosts exRaw 1 []) (.crit [("a", "2")]) 0 0).map (contains · [("a", "2")]) = some false ∧
     hostNum (lbF exHosts exRaw 1 []) (some [("a", "2")]) = 1 ∧
     isExists (lbF exHosts exRaw 1 []) (some [("a", "2")]) = true := by decide
+
+/-! ## The request path: criteria assembly per request, sequences of requests on one route
+
+Objects (see `Model/SubsetRequest.lean`): `rc : Option Meta` the `metadata_match` map the route (or its weighted
+cluster) is configured with (`none`: the route owns no criteria object), whose criteria object — shared by every
+request matching the route — is `rc.map mkCriteria`; `reqs : List (Option Meta)` a sequence of requests, each with its
+per-request criteria map (`types.VarRouterMeta`; `none`: unset); `assemble` = `downStream.MetadataMatchCriteria` as
+regenerated; `runSeq` threads the shared object through the sequence; `proxyChoose` = the cluster manager's
+`HostNum(criteria) == 0 ⇒ no host, else ChooseHost`. -/
+
+open MosnVerif.Model.SubsetRequest
+
+/-- the criteria objects of the router: `NewMetadataMatchCriteriaImpl` returns a *new* object holding the map's pairs
+sorted by key; a route owns one iff its `metadata_match` is non-empty, a weighted cluster always. -/
+theorem criteria_objects (md : Meta) :
+    newImpl md = some (mkCriteria md) ∧
+    routeObject md = (if md = [] then none else some (mkCriteria md)) ∧
+    weightedObject md = some (mkCriteria md) :=
+  ⟨newImpl_eq md, routeObject_eq md, weightedObject_eq md⟩
+
+/-- **criteria_history_independent**: for every criteria object of the route and every sequence of requests with
+arbitrary per-request criteria, the criteria used for request `k` are `merge(route, request k)` — the assembly applied
+to the route's *configured* object and that request alone — and the route's shared object is the configured one before
+and after every request. -/
+theorem criteria_history_independent (route : Option Path) (reqs : List (Option Meta)) :
+    runSeq route reqs = reqs.map (assemble route) ∧
+    (∀ k (hk : k < reqs.length), ((runSeq route reqs)[k]?).map (·.used) = some (assemble route reqs[k]).used) ∧
+    (∀ x ∈ runSeq route reqs, x.route = route) := by
+  refine ⟨runSeq_eq route reqs, fun k hk => ?_, fun x hx => ?_⟩
+  · rw [runSeq_eq, List.getElem?_map, List.getElem?_eq_getElem hk]; rfl
+  · rw [runSeq_eq] at hx
+    obtain ⟨r, _, rfl⟩ := List.mem_map.mp hx
+    exact assemble_route route r
+
+/-- **criteria_assembled** (what `merge(route, request)` is): without per-request criteria the route's object itself;
+with per-request criteria `m` a new object, sorted by key, holding exactly `m`'s pairs and the route's pairs for the
+keys `m` does not set (the request wins key by key). -/
+theorem criteria_assembled (rc : Option Meta) (hrc : ∀ r, rc = some r → (r.map (·.1)).Nodup) :
+    (assemble (rc.map mkCriteria) none).used = rc.map mkCriteria ∧
+    ∀ m : Meta, (m.map (·.1)).Nodup →
+      ∃ c, (assemble (rc.map mkCriteria) (some m)).used = some c ∧ strictSorted (c.map (·.1)) = true ∧
+        ∀ kv, kv ∈ c ↔ kv ∈ m ∨ (kv ∈ rc.getD [] ∧ kv.1 ∉ m.map (·.1)) := by
+  refine ⟨by rw [assemble_none], fun m hm => ?_⟩
+  obtain ⟨h1, h2⟩ := effList_spec rc m hrc hm
+  refine ⟨_, by rw [assemble_some], mkCriteria_sorted _ h1, fun kv => ?_⟩
+  rw [mem_mkCriteria, h2 kv]
+  simp [List.mem_append, List.mem_filter]
+
+/-- the proxy's host choice for criteria built from a map: `request_exact` behind the cluster manager's
+`HostNum == 0` gate (the gate never changes the outcome). -/
+theorem proxy_criteria_exact (inner : Inner) (hin : InnerOK inner) (hosts : List Host) (raw : List (List Key))
+    (policy : Nat) (dflt : Path) (shuf : List Val → List Val) (hshuf : ∀ l v, v ∈ shuf l ↔ v ∈ l)
+    (kvs : Path) (hnd : (kvs.map (·.1)).Nodup) (d1 d2 : Nat) :
+    ∀ lb, (lb = lbF hosts raw policy dflt ∨ lb = lbP shuf hosts raw policy dflt) →
+      (∀ h, proxyChoose inner lb (some (mkCriteria kvs)) d1 d2 = some h → h ∈ specTargets hosts raw policy dflt kvs) ∧
+      (specTargets hosts raw policy dflt kvs ≠ [] → ∃ h, proxyChoose inner lb (some (mkCriteria kvs)) d1 d2 = some h) := by
+  intro lb hlb
+  obtain ⟨ha, hb, hn, _⟩ := request_exact inner hin hosts raw policy dflt shuf hshuf kvs hnd d1 d2 lb hlb
+  unfold proxyChoose Gen.SubsetRequest.noHostWhen
+  by_cases hz : hostNum lb (some (mkCriteria kvs)) = 0
+  · have hp : specPool hosts raw policy dflt kvs = [] := by
+      rw [hn] at hz
+      exact List.eq_nil_of_length_eq_zero (by omega)
+    have ht := specTargets_nil_of_pool_nil hosts raw policy dflt kvs hp
+    simp only [hz, decide_true, if_true]
+    exact ⟨fun h hh => (by cases hh), fun hne => absurd ht hne⟩
+  · simp only [hz, decide_false, Bool.false_eq_true, if_false]
+    exact ⟨ha, hb⟩
+
+/-- the proxy's host choice for a request without any criteria: a healthy host of the cluster, whenever there is one. -/
+theorem proxy_no_criteria_exact (inner : Inner) (hin : InnerOK inner) (hosts : List Host) (raw : List (List Key))
+    (policy : Nat) (dflt : Path) (shuf : List Val → List Val) (hshuf : ∀ l v, v ∈ shuf l ↔ v ∈ l) (d1 d2 : Nat) :
+    ∀ lb, (lb = lbF hosts raw policy dflt ∨ lb = lbP shuf hosts raw policy dflt) →
+      (∀ h, proxyChoose inner lb none d1 d2 = some h → h ∈ hosts.filter (·.healthy)) ∧
+      (hosts.filter (·.healthy) ≠ [] → ∃ h, proxyChoose inner lb none d1 d2 = some h) := by
+  intro lb hlb
+  obtain ⟨h1, h2, _⟩ := no_criteria inner hin hosts raw policy dflt d1 d2
+  obtain ⟨_, hch, _, _⟩ := builders_equiv hosts raw policy dflt shuf hshuf inner
+  have hfull : lb.full = hosts := by
+    rcases hlb with rfl | rfl
+    · exact full_lbF hosts raw policy dflt
+    · exact full_lbP shuf hosts raw policy dflt
+  have hchoose : chooseHost inner lb .nilCrit d1 d2 = chooseHost inner (lbF hosts raw policy dflt) .nilCrit d1 d2 := by
+    rcases hlb with rfl | rfl
+    · rfl
+    · exact (hch _ _ _).symm
+  have hnum : hostNum lb none = (hosts.length : Int) := by
+    show ((lb.full.length : Nat) : Int) = _
+    rw [hfull]
+  unfold proxyChoose Gen.SubsetRequest.noHostWhen
+  rw [hnum]
+  by_cases hz : hosts = []
+  · subst hz
+    simp
+  · have hlen : ((hosts.length : Nat) : Int) ≠ 0 := by
+      have := List.length_pos_iff.mpr hz
+      omega
+    simp only [hlen, decide_false, Bool.false_eq_true, if_false]
+    show (∀ h, chooseHost inner lb .nilCrit d1 d2 = some h → _) ∧ (_ → ∃ h, chooseHost inner lb .nilCrit d1 d2 = some h)
+    rw [hchoose]
+    constructor
+    · intro h hh
+      obtain ⟨a, b⟩ := h1 h hh
+      exact List.mem_filter.mpr ⟨a, by simpa using b⟩
+    · intro hne
+      obtain ⟨x, hx⟩ := List.exists_mem_of_ne_nil _ hne
+      obtain ⟨a, b⟩ := List.mem_filter.mp hx
+      exact h2 ⟨x, a, by simpa using b⟩
+
+/-- **request_path_exact** (the statement per request, independent of the history of earlier requests): on a route
+configured with the criteria map `rc`, for every sequence of requests with arbitrary per-request criteria, request `k`
+is sent — by either builder's balancer, behind the cluster manager's gate, whatever the inner balancer states — only to
+a host among `requestTargets … rc (request k)`: the reference targets of exactly that request's pairs (its own and the
+route's for the keys it does not set), and it is sent somewhere whenever that set is non-empty. -/
+theorem request_path_exact (inner : Inner) (hin : InnerOK inner) (hosts : List Host) (raw : List (List Key))
+    (policy : Nat) (dflt : Path) (shuf : List Val → List Val) (hshuf : ∀ l v, v ∈ shuf l ↔ v ∈ l)
+    (rc : Option Meta) (hrc : ∀ r, rc = some r → (r.map (·.1)).Nodup)
+    (reqs : List (Option Meta)) (hreqs : ∀ m, some m ∈ reqs → (m.map (·.1)).Nodup)
+    (k : Nat) (hk : k < reqs.length) (d1 d2 : Nat) :
+    ∀ lb, (lb = lbF hosts raw policy dflt ∨ lb = lbP shuf hosts raw policy dflt) →
+      ∃ res, (runSeq (rc.map mkCriteria) reqs)[k]? = some res ∧ res.route = rc.map mkCriteria ∧
+        (∀ h, proxyChoose inner lb res.used d1 d2 = some h → h ∈ requestTargets hosts raw policy dflt rc reqs[k]) ∧
+        (requestTargets hosts raw policy dflt rc reqs[k] ≠ [] → ∃ h, proxyChoose inner lb res.used d1 d2 = some h) := by
+  intro lb hlb
+  refine ⟨assemble (rc.map mkCriteria) reqs[k], ?_, assemble_route _ _, ?_⟩
+  · rw [runSeq_eq, List.getElem?_map, List.getElem?_eq_getElem hk]; rfl
+  have hmem : reqs[k] ∈ reqs := List.getElem_mem hk
+  generalize reqs[k] = req at hmem
+  cases req with
+  | none =>
+    rw [assemble_none]
+    cases rc with
+    | none => exact proxy_no_criteria_exact inner hin hosts raw policy dflt shuf hshuf d1 d2 lb hlb
+    | some r => exact proxy_criteria_exact inner hin hosts raw policy dflt shuf hshuf r (hrc r rfl) d1 d2 lb hlb
+  | some m =>
+    rw [assemble_some]
+    obtain ⟨h1, h2⟩ := effList_spec rc m hrc (hreqs m hmem)
+    have := proxy_criteria_exact inner hin hosts raw policy dflt shuf hshuf _ h1 d1 d2 lb hlb
+    rw [specTargets_congr hosts raw policy dflt _ _ h2] at this
+    exact this
+
+/-! ### non-vacuity of the request path, and the witness against an in-place merge -/
+
+def zoneHosts : List Host :=
+  [ { name := "h0", md := [("version", "v1"), ("zone", "a")], healthy := true },
+    { name := "h1", md := [("version", "v2"), ("zone", "b")], healthy := true },
+    { name := "h2", md := [("version", "v1"), ("zone", "b")], healthy := true } ]
+
+/-- route `metadata_match {zone: a}`, selector `[zone]`; request 1 carries `{version: v2}`, request 2 nothing -/
+def zoneReqs : List (Option Meta) := [some [("version", "v2")], none, some [("zone", "b")], some []]
+
+example : routeObject [("zone", "a")] = some [("zone", "a")] ∧ routeObject [] = none ∧ weightedObject [] = some [] := by decide
+-- hypotheses of `request_path_exact` hold for the example
+example : (∀ r, some [("zone", "a")] = some r → (r.map (·.1)).Nodup) ∧ (∀ m, some m ∈ zoneReqs → (m.map (·.1)).Nodup) := by
+  refine ⟨fun r h => by cases h; decide, fun m hm => ?_⟩
+  simp [zoneReqs] at hm
+  rcases hm with rfl | rfl | rfl <;> decide
+-- the model as regenerated: every request sees the configured route object; request 2 is looked up with `zone=a` alone
+example : (runSeq (routeObject [("zone", "a")]) zoneReqs).map (·.used) =
+      [some [("version", "v2"), ("zone", "a")], some [("zone", "a")], some [("zone", "b")], some [("zone", "a")]] ∧
+    (runSeq (routeObject [("zone", "a")]) zoneReqs).map (·.route) = List.replicate 4 (some [("zone", "a")]) := by decide
+example : (requestTargets zoneHosts [["zone"]] 1 [] (some [("zone", "a")]) none).map (·.name) = ["h0"] ∧
+    (requestTargets zoneHosts [["zone"]] 0 [] (some [("zone", "a")]) (some [("version", "v2")])) = [] ∧
+    (requestTargets zoneHosts [["zone"]] 1 [] (some [("zone", "a")]) (some [("zone", "b")])).map (·.name) = ["h1", "h2"] ∧
+    (requestTargets zoneHosts [["zone"]] 1 [] none none).map (·.name) = ["h0", "h1", "h2"] := by decide
+
+/-- **an in-place merge violates history independence and the property** (`MergeMatchCriteria` as it is written merges
+into its receiver: `Gen.SubsetRequest.mergeMatchRecv = 1`): had `downStream.MetadataMatchCriteria` returned
+`routerMeta.MergeMatchCriteria(varMeta)`, request 1's `version=v2` would stay in the route's shared object, request 2
+(route criteria only, selector `[zone]` exists, `h0` matches) would be looked up with `version=v2;zone=a`, find no
+subset and be sent to `h1` (any-endpoint), which does not carry `zone=a` — or to no host at all (no fallback). -/
+example :
+    Gen.SubsetRequest.mergeMatchRecv = 1 ∧ Gen.SubsetRequest.mergeMatchRet = 1 ∧
+    (runSeqInPlace (routeObject [("zone", "a")]) zoneReqs).map (·.used) ≠
+      zoneReqs.map (fun r => (assembleInPlace (routeObject [("zone", "a")]) r).used) ∧
+    ((runSeqInPlace (routeObject [("zone", "a")]) zoneReqs)[1]?).map (·.used) =
+      some (some [("version", "v2"), ("zone", "a")]) ∧
+    (proxyChoose rrChoose (lbF zoneHosts [["zone"]] 1 []) (some [("version", "v2"), ("zone", "a")]) 0 0).map (·.name) = some "h1" ∧
+    (requestTargets zoneHosts [["zone"]] 1 [] (some [("zone", "a")]) none).map (·.name) = ["h0"] ∧
+    proxyChoose rrChoose (lbF zoneHosts [["zone"]] 0 []) (some [("version", "v2"), ("zone", "a")]) 0 0 = none ∧
+    (requestTargets zoneHosts [["zone"]] 0 [] (some [("zone", "a")]) none).map (·.name) = ["h0"] := by decide
 
 end MosnVerif.Props.C15
